@@ -57,3 +57,14 @@ CASES += [
       "                        rho2 = rho2 + rho1\n                    rho1 = rho2    \n                    \n                pr.data[indx,:,:] = rho2 \n                indx += 1   \n\n        self._CLOSE_RWA(pr)    ",
       "                        rho2 = rho2 + rho1\n                rho1 = rho2    \n                    \n                pr.data[indx,:,:] = rho2 \n                indx += 1   \n\n        self._CLOSE_RWA(pr)    "),
 ]
+
+CASES += [
+    m("deferred initialisation runs in the caller's units (the repaired defect)", "C07-F", R + "redfieldtensor.py",
+      "        with energy_units(\"int\"):\n            self._implementation(self.Hamiltonian,\n                                 self.SystemBathInteraction)",
+      "        if True:\n            self._implementation(self.Hamiltonian,\n                                 self.SystemBathInteraction)"),
+    m("constructor calculates in the caller's units", "C07-F", R + "redfieldtensor.py",
+      "            with energy_units(\"int\"):\n                self._implementation(ham, sbi)", "            if True:\n                self._implementation(ham, sbi)"),
+    t("deferred initialisation binds the arguments first", R + "redfieldtensor.py",
+      "        with energy_units(\"int\"):\n            self._implementation(self.Hamiltonian,\n                                 self.SystemBathInteraction)",
+      "        hh, sb = self.Hamiltonian, self.SystemBathInteraction\n        with energy_units(\"int\"):\n            self._implementation(hh, sb)"),
+]
